@@ -303,8 +303,12 @@ func (fr *Frame) onSend(ch *Val, v *Val, pos token.Pos) {
 	if fr.sendCancellable {
 		canc = boolVal("true")
 	}
-	fr.anchorAsserts("send", fr.chanName(ch), pos, map[string]*Val{"ch": ch, "v": v, "cancellable": canc})
-	defer fr.ghostAfter("send", fr.chanName(ch), map[string]*Val{"ch": ch, "v": v, "cancellable": canc})
+	nb := boolVal("false")
+	if fr.sendNonBlocking {
+		nb = boolVal("true")
+	}
+	fr.anchorAsserts("send", fr.chanName(ch), pos, map[string]*Val{"ch": ch, "v": v, "cancellable": canc, "nonblocking": nb})
+	defer fr.ghostAfter("send", fr.chanName(ch), map[string]*Val{"ch": ch, "v": v, "cancellable": canc, "nonblocking": nb})
 	et := chanElem(ch)
 	if et == nil {
 		return
